@@ -1,24 +1,323 @@
-(* C09 — Basic values are copied, composites are shared (first instalment; the
-   store invariants are in SemStore.v when present). *)
-From Coq Require Import ZArith List FMapPositive.
-From EvyV Require Import Base Ast Sem SemBasics.
+(* C09 — Basic values are copied, composites are shared.
+   Property theorems only; every proof is [exact <lemma>] of SemFresh / SemStore / SemPrivacy.
+   Vocabulary (SemStoreBase): [wf s] = the heap holds nothing at or above hnext;
+   [err_loc g l] = l is the cell bound to err or to errmsg in the global frame g;
+   [basic_cells_stable s s'] = every cell that held a num/string/bool in s, other than those
+   two, holds the same value in s'; [copy_rel N h' l c] = c is the copyOrRef of l (N = hnext
+   before, h' = heap after); [no_err_decl P] = P declares no variable, parameter or loop
+   variable named err / errmsg (the parser rejects such programs). *)
+From Coq Require Import ZArith NArith PArith List String Bool Floats FMapPositive.
+From EvyV Require Import Base Num Ast Omap Sem SemStoreBase SemFresh SemStore SemPrivacy.
+Import ListNotations.
+Local Open Scope positive_scope.
 
-Theorem C09_copy_or_ref_copies_basic : forall n l s v,
-  hget (st_heap s) l = Some v ->
-  (match v with HNum _ | HStr _ | HBool _ => True | _ => False end) ->
-  copy_or_ref (S n) l s = (Ok (hnext (st_heap s)), upd_heap (snd (halloc (st_heap s) v)) s).
-Proof. exact copy_or_ref_basic. Qed.
-Print Assumptions C09_copy_or_ref_copies_basic.
+(* ====================================================================== *)
+(* A1 — copyOrRef                                                          *)
+(* ====================================================================== *)
+Theorem C09_composite_shared : forall fuel l s v,
+  hget (st_heap s) l = Some v -> is_composite v = true ->
+  copy_or_ref (S fuel) l s = (Ok l, s).
+Proof. exact composite_shared. Qed.
+Print Assumptions C09_composite_shared.
 
-Theorem C09_copy_or_ref_shares_composite : forall n l s v,
-  hget (st_heap s) l = Some v ->
-  (match v with HArr _ | HMap _ => True | _ => False end) ->
-  copy_or_ref (S n) l s = (Ok l, s).
-Proof. exact copy_or_ref_composite. Qed.
-Print Assumptions C09_copy_or_ref_shares_composite.
+Theorem C09_basic_copied : forall fuel l s v,
+  hget (st_heap s) l = Some v -> is_basic v = true ->
+  copy_or_ref (S fuel) l s = (Ok (hnext (st_heap s)), upd_heap (snd (halloc (st_heap s) v)) s).
+Proof. exact basic_copied. Qed.
+Print Assumptions C09_basic_copied.
 
-Theorem C09_allocation_is_fresh : forall h v l,
-  hget h l <> None -> (forall k, hget h k <> None -> Pos.lt k (hnext h)) ->
-  l <> fst (halloc h v) /\ hget (snd (halloc h v)) l = hget h l.
-Proof. exact halloc_fresh. Qed.
-Print Assumptions C09_allocation_is_fresh.
+Theorem C09_copy_or_ref_fresh : forall fuel l s c s',
+  wf s -> copy_or_ref fuel l s = (Ok c, s') ->
+  wf s' /\ heap_extends (st_heap s) (st_heap s') /\ s' = upd_heap (st_heap s') s /\
+  copy_rel (hnext (st_heap s)) (st_heap s') l c /\
+  match hget (st_heap s) l with
+  | Some (HNum _ as v) | Some (HStr _ as v) | Some (HBool _ as v) =>
+      hnext (st_heap s) <= c /\ hget (st_heap s) c = None /\ hget (st_heap s') c = Some v
+  | Some (HArr _) | Some (HMap _) => c = l /\ s' = s
+  | Some (HAny t i) =>
+      hnext (st_heap s) <= c /\ hget (st_heap s) c = None /\
+      exists i', hget (st_heap s') c = Some (HAny t i') /\ copy_rel (hnext (st_heap s)) (st_heap s') i i'
+  | _ => False
+  end.
+Proof. exact copy_or_ref_fresh. Qed.
+Print Assumptions C09_copy_or_ref_fresh.
+
+(* ====================================================================== *)
+(* A2 — globalErr is the only in-place mutation of a basic cell            *)
+(* ====================================================================== *)
+Theorem C09_in_place_only_err : forall P n,
+  forallb func_ok (p_funcs P) = true ->
+  (forall e x s r s', good_env e -> wf s -> eval_expr n P e x s = (r, s') -> basic_cells_stable s s') /\
+  (forall e l s r s', good_env e -> wf s -> eval_exprs n P e l s = (r, s') -> basic_cells_stable s s') /\
+  (forall e nm args s r s', good_env e -> wf s -> eval_call n P e nm args s = (r, s') -> basic_cells_stable s s') /\
+  (forall e st s r s', good_env e -> stmt_ok st = true -> wf s ->
+                       exec_stmt n P e st s = (r, s') -> basic_cells_stable s s') /\
+  (forall e l s r s', good_env e -> stmts_ok l = true -> wf s ->
+                      exec_stmts n P e l s = (r, s') -> basic_cells_stable s s') /\
+  (forall e l s r s', good_env e -> stmts_ok l = true -> wf s ->
+                      exec_block n P e l s = (r, s') -> basic_cells_stable s s') /\
+  (forall e c b s r s', good_env e -> stmts_ok b = true -> wf s ->
+                        exec_cond n P e c b s = (r, s') -> basic_cells_stable s s') /\
+  (forall e c b s r s', good_env e -> stmts_ok b = true -> wf s ->
+                        exec_while n P e c b s = (r, s') -> basic_cells_stable s s') /\
+  (forall e var rg b s r s', good_env e -> name_ok var = true -> stmts_ok b = true -> wf s ->
+                             exec_for n P e var rg b s = (r, s') -> basic_cells_stable s s').
+Proof. exact in_place_only_err. Qed.
+Print Assumptions C09_in_place_only_err.
+
+Theorem C09_in_place_only_err_run : forall fuel P s0 o s1,
+  no_err_decl P = true -> wf s0 -> run_program fuel P s0 = (o, s1) ->
+  wf s1 /\ basic_cells_stable s0 s1.
+Proof. exact in_place_only_err_run. Qed.
+Print Assumptions C09_in_place_only_err_run.
+
+Theorem C09_in_place_only_err_event : forall fuel P name args s0 o s1,
+  no_err_decl P = true -> wf s0 -> handle_event fuel P name args s0 = (o, s1) ->
+  wf s1 /\ basic_cells_stable s0 s1.
+Proof. exact in_place_only_err_event. Qed.
+Print Assumptions C09_in_place_only_err_event.
+
+Theorem C09_basic_noninterference_partial : forall P n e target x s r s',
+  forallb func_ok (p_funcs P) = true -> good_env e -> wf s ->
+  exec_stmt n P e (SAssign target x) s = (r, s') ->
+  forall l v, hget (st_heap s) l = Some v -> is_basic v = true -> ~ err_loc (st_globals s) l ->
+              hget (st_heap s') l = Some v.
+Proof. exact basic_noninterference_partial. Qed.
+Print Assumptions C09_basic_noninterference_partial.
+
+Theorem C09_wf_init : forall stop input ff ay, wf (init_state stop input ff ay).
+Proof. exact wf_init. Qed.
+Print Assumptions C09_wf_init.
+
+(* ====================================================================== *)
+(* A3 — privacy of the err cells (partial: see SemPrivacy.v)               *)
+(* ====================================================================== *)
+Theorem C09_old_assignment_aliases_err_refuted :
+  exists (s1 s2 : state),
+    s1 = after (exec_assign_nocopy 10 P0 [] nx (EVar n_err TBool)) (after (exec_stmt 10 P0 [] st_decl_x) s_init) /\
+    s2 = after (exec_stmt 10 P0 [] st_fail) s1 /\
+    frame_get nx (st_globals s1) = frame_get n_err (st_globals s1) /\
+    read_global nx s1 = Some (HBool false) /\
+    read_global nx s2 = Some (HBool true).
+Proof. exact old_assignment_aliases_err_refuted. Qed.
+Print Assumptions C09_old_assignment_aliases_err_refuted.
+
+Theorem C09_priv_init : forall stop input ff ay, priv (init_state stop input ff ay).
+Proof. exact priv_init. Qed.
+Print Assumptions C09_priv_init.
+
+Theorem C09_priv_reach : forall s, priv s ->
+  forall l x, ~ bad s l -> reach (st_heap s) l x -> ~ err_cell s x.
+Proof. exact priv_reach. Qed.
+Print Assumptions C09_priv_reach.
+
+Theorem C09_copy_or_ref_clean : forall fuel l s c s',
+  priv s -> copy_or_ref fuel l s = (Ok c, s') ->
+  priv s' /\ kinds_stable s s' /\ same_err s s' /\ clean s' c /\
+  (forall v, hget (st_heap s) l = Some v -> not_box v ->
+             exists v', hget (st_heap s') c = Some v' /\ not_box v').
+Proof. exact copy_or_ref_clean. Qed.
+Print Assumptions C09_copy_or_ref_clean.
+
+Theorem C09_decl_binding_priv : forall d v n e s1 c s2 r s3,
+  priv s1 -> env_clean s1 e -> name_ok n = true ->
+  copy_or_ref d v s1 = (Ok c, s2) -> set_var n c e s2 = (r, s3) ->
+  priv s3 /\ forall e', r = Ok e' -> env_clean s3 e'.
+Proof. exact decl_binding_priv. Qed.
+Print Assumptions C09_decl_binding_priv.
+
+Theorem C09_assign_elem_priv : forall d v s1 c s2 la els k,
+  priv s1 -> copy_or_ref d v s1 = (Ok c, s2) -> hget (st_heap s2) la = Some (HArr els) ->
+  priv (upd_heap (hset (st_heap s2) la (HArr (list_set els k c))) s2).
+Proof. exact assign_elem_priv. Qed.
+Print Assumptions C09_assign_elem_priv.
+
+Theorem C09_assign_key_priv : forall d v s1 c s2 la om k,
+  priv s1 -> copy_or_ref d v s1 = (Ok c, s2) -> hget (st_heap s2) la = Some (HMap om) ->
+  priv (upd_heap (hset (st_heap s2) la (HMap (oset k c om))) s2).
+Proof. exact assign_key_priv. Qed.
+Print Assumptions C09_assign_key_priv.
+
+Theorem C09_store_err_priv : forall s l v0 v,
+  priv s -> hget (st_heap s) l = Some v0 -> is_basic v0 = true -> same_kind v0 v ->
+  priv (upd_heap (hset (st_heap s) l v) s).
+Proof. exact store_err_priv. Qed.
+Print Assumptions C09_store_err_priv.
+
+Theorem C09_exprs_of_clean : forall (ev : expr -> M loc),
+  (forall x s l s', priv s -> ev x s = (Ok l, s') -> priv s' /\ kinds_stable s s' /\ same_err s s') ->
+  forall d l s cs s', priv s -> exprs_of ev d l s = (Ok cs, s') ->
+  priv s' /\ kinds_stable s s' /\ same_err s s' /\ Forall (clean s') cs.
+Proof. exact exprs_of_clean. Qed.
+Print Assumptions C09_exprs_of_clean.
+
+(* the whole-run invariant, stated, not proved *)
+Definition C09_err_cells_private_full : Prop := err_cells_private_full.
+
+(* ====================================================================== *)
+(* A4 — fresh containers                                                   *)
+(* ====================================================================== *)
+Theorem C09_eindex_shares : forall n P e t a i s s0 s1 s2 la li els fi k l,
+  tick s = (Ok tt, s0) ->
+  eval_expr n P e a s0 = (Ok la, s1) ->
+  eval_expr n P e i s1 = (Ok li, s2) ->
+  hget (st_heap s2) la = Some (HArr els) ->
+  hget (st_heap s2) li = Some (HNum fi) ->
+  normalize_index fi (List.length els) false = Ok k ->
+  nth_error els k = Some l ->
+  eval_expr (S n) P e (EIndex t a i) s = (Ok l, s2).
+Proof. exact eindex_shares. Qed.
+Print Assumptions C09_eindex_shares.
+
+Theorem C09_edot_shares : forall n P e t a key s s0 s1 la om l,
+  tick s = (Ok tt, s0) ->
+  eval_expr n P e a s0 = (Ok la, s1) ->
+  hget (st_heap s1) la = Some (HMap om) ->
+  oget key om = Some l ->
+  eval_expr (S n) P e (EDot t a key) s = (Ok l, s1).
+Proof. exact edot_shares. Qed.
+Print Assumptions C09_edot_shares.
+
+Theorem C09_eslice_unfold : forall n P e t a lo hi,
+  eval_expr (S n) P e (ESlice t a lo hi) =
+  (let* _ := tick in
+   let* la := eval_expr n P e a in
+   let* llo := match lo with Some y => let* l := eval_expr n P e y in ret (Some l) | None => ret None end in
+   let* lhi := match hi with Some y => let* l := eval_expr n P e y in ret (Some l) | None => ret None end in
+   let* va := load la in
+   match va with
+   | HArr els => slice_arr els llo lhi
+   | HStr s =>
+       let* (s0, e0) := slice_bounds llo lhi (List.length s) in
+       alloc (HStr (firstn (e0 - s0) (skipn s0 s)))
+   | _ => internal "expected string or array before ["
+   end).
+Proof. exact eslice_unfold. Qed.
+Print Assumptions C09_eslice_unfold.
+
+Theorem C09_slice_fresh : forall els llo lhi s c s',
+  wf s -> slice_arr els llo lhi s = (Ok c, s') ->
+  exists lo hi els',
+    slice_bounds llo lhi (List.length els) s = (Ok (lo, hi), s) /\
+    heap_extends (st_heap s) (st_heap s') /\ s' = upd_heap (st_heap s') s /\
+    hnext (st_heap s) <= c /\ hget (st_heap s) c = None /\
+    hget (st_heap s') c = Some (HArr els') /\
+    Forall2 (copy_rel (hnext (st_heap s)) (st_heap s')) (firstn (hi - lo) (skipn lo els)) els'.
+Proof. exact slice_fresh. Qed.
+Print Assumptions C09_slice_fresh.
+
+Theorem C09_concat_fresh : forall xs r ys s c s',
+  wf s -> hget (st_heap s) r = Some (HArr ys) -> bin_arr BPlus xs r s = (Ok c, s') ->
+  exists xs' ys',
+    heap_extends (st_heap s) (st_heap s') /\ s' = upd_heap (st_heap s') s /\
+    hnext (st_heap s) <= c /\ hget (st_heap s) c = None /\
+    hget (st_heap s') c = Some (HArr (xs' ++ ys')) /\
+    Forall2 (copy_rel (hnext (st_heap s)) (st_heap s')) xs xs' /\
+    Forall2 (copy_rel (hnext (st_heap s)) (st_heap s')) ys ys'.
+Proof. exact concat_fresh. Qed.
+Print Assumptions C09_concat_fresh.
+
+Theorem C09_repeat_fresh : forall xs r s c s',
+  wf s -> bin_arr BAsterisk xs r s = (Ok c, s') ->
+  heap_extends (st_heap s) (st_heap s') /\ s' = upd_heap (st_heap s') s /\
+  (exists els', hget (st_heap s') c = Some (HArr els')) /\
+  forall x, reach (st_heap s') c x -> hnext (st_heap s) <= x /\ hget (st_heap s) x = None.
+Proof. exact repeat_fresh. Qed.
+Print Assumptions C09_repeat_fresh.
+
+(* ====================================================================== *)
+(* Examples (vm_compute on concrete programs)                              *)
+(* ====================================================================== *)
+Definition v_ (n : string) (t : ty) : expr := EVar (s_ n) t.
+Definition run_stmts (l : list stmt) : outcome * state :=
+  run_program 100 {| p_funcs := []; p_handlers := []; p_stmts := l |} s_init.
+Definition cell_of (n : string) (s : state) : option loc := frame_get (s_ n) (st_globals s).
+Definition elems_of (n : string) (s : state) : option (list loc) :=
+  match cell_of n s with
+  | Some l => match hget (st_heap s) l with Some (HArr els) => Some els | _ => None end
+  | None => None
+  end.
+
+(* x := 1; y := x; n := str2num "hi"; x = 2  — y still reads 1, err reads true: the hypotheses of
+   C09_in_place_only_err_run hold (no_err_decl, wf_init) and so does its conclusion *)
+Definition prog_alias : list stmt :=
+  [ SDecl (s_ "x") TNum (ENum 1%float);
+    SDecl (s_ "y") TNum (v_ "x" TNum);
+    st_fail;
+    SAssign (v_ "x" TNum) (ENum 2%float) ].
+Example ex_alias_run :
+  no_err_decl {| p_funcs := []; p_handlers := []; p_stmts := prog_alias |} = true /\
+  fst (run_stmts prog_alias) = ODone /\
+  read_global (s_ "y") (snd (run_stmts prog_alias)) = Some (HNum 1%float) /\
+  read_global (s_ "x") (snd (run_stmts prog_alias)) = Some (HNum 2%float) /\
+  read_global n_err (snd (run_stmts prog_alias)) = Some (HBool true) /\
+  cell_of "x" (snd (run_stmts prog_alias)) <> cell_of "y" (snd (run_stmts prog_alias)).
+Proof. vm_compute. repeat split; auto; discriminate. Qed.
+
+(* the hypothesis of A2 is needed at the level of single statements: with a LOCAL variable named
+   err (here the frame binds err to the cell of the global x), globalErr writes into that cell *)
+Example ex_local_err_is_mutated :
+  let s1 := after (exec_stmt 10 P0 [] st_decl_x) s_init in
+  let lx := match frame_get nx (st_globals s1) with Some l => l | None => 1 end in
+  let s2 := after (exec_stmt 10 P0 [[(n_err, lx)]] st_fail) s1 in
+  read_global nx s1 = Some (HBool false) /\ read_global nx s2 = Some (HBool true) /\
+  read_global n_err s2 = Some (HBool false).
+Proof. vm_compute. auto. Qed.
+
+(* a := [[1] 2]; b := a[0:2]; c := a + a; d := a * 2; e := a[0]
+   - b, c, d are new array cells;
+   - b[0] and c[0] ARE a[0] (inner array shared), b[1] and c[1] are new cells (num copied);
+   - d[0] is a NEW inner array (deep copy);
+   - e is bound to the cell of a[0] itself (arrays are shared by declaration) *)
+Definition arr_a : expr :=
+  EArr (TArr TAny) [EAny (EArr (TArr TNum) [ENum 1%float]) (TArr TNum); EAny (ENum 2%float) TNum].
+Definition prog_arr : list stmt :=
+  [ SDecl (s_ "a") (TArr (TArr TNum)) (EArr (TArr (TArr TNum)) [EArr (TArr TNum) [ENum 1%float]; EArr (TArr TNum) [ENum 2%float]]);
+    SDecl (s_ "u") (TArr TNum) (EArr (TArr TNum) [ENum 5%float; ENum 6%float]);
+    SDecl (s_ "b") (TArr (TArr TNum)) (ESlice (TArr (TArr TNum)) (v_ "a" (TArr (TArr TNum))) (Some (ENum 0%float)) (Some (ENum 2%float)));
+    SDecl (s_ "c") (TArr (TArr TNum)) (EBin BPlus (TArr (TArr TNum)) (v_ "a" (TArr (TArr TNum))) (v_ "a" (TArr (TArr TNum))));
+    SDecl (s_ "d") (TArr (TArr TNum)) (EBin BAsterisk (TArr (TArr TNum)) (v_ "a" (TArr (TArr TNum))) (ENum 2%float));
+    SDecl (s_ "e") (TArr TNum) (EIndex (TArr TNum) (v_ "a" (TArr (TArr TNum))) (ENum 0%float));
+    SDecl (s_ "w") (TArr TNum) (ESlice (TArr TNum) (v_ "u" (TArr TNum)) None None) ].
+Definition s_arr : state := snd (run_stmts prog_arr).
+Example ex_containers :
+  fst (run_stmts prog_arr) = ODone /\
+  (* b, c, d are distinct new cells *)
+  cell_of "b" s_arr <> cell_of "a" s_arr /\ cell_of "c" s_arr <> cell_of "a" s_arr /\
+  cell_of "d" s_arr <> cell_of "a" s_arr /\
+  (* slicing and + share the inner arrays *)
+  option_map (fun l => nth_error l 0) (elems_of "b" s_arr) = option_map (fun l => nth_error l 0) (elems_of "a" s_arr) /\
+  option_map (fun l => nth_error l 0) (elems_of "c" s_arr) = option_map (fun l => nth_error l 0) (elems_of "a" s_arr) /\
+  (* repetition does not *)
+  option_map (fun l => nth_error l 0) (elems_of "d" s_arr) <> option_map (fun l => nth_error l 0) (elems_of "a" s_arr) /\
+  (* e IS a[0] *)
+  option_map Some (cell_of "e" s_arr) = option_map (fun l => nth_error l 0) (elems_of "a" s_arr) /\
+  (* a slice of a num array has new element cells *)
+  option_map (fun l => nth_error l 0) (elems_of "w" s_arr) <> option_map (fun l => nth_error l 0) (elems_of "u" s_arr).
+Proof. vm_compute. repeat split; auto; discriminate. Qed.
+
+(* copy_or_ref on concrete cells of that state: the array cell of a is returned as is, the num
+   cell u[0] is copied to hnext *)
+Example ex_copy_or_ref :
+  wf s_arr /\
+  (exists la, cell_of "a" s_arr = Some la /\ copy_or_ref 5 la s_arr = (Ok la, s_arr)) /\
+  (exists l0, option_map (fun l => nth_error l 0) (elems_of "u" s_arr) = Some (Some l0) /\
+              fst (copy_or_ref 5 l0 s_arr) = Ok (hnext (st_heap s_arr))).
+Proof.
+  split; [|split].
+  - unfold s_arr, run_stmts.
+    destruct (run_program 100 {| p_funcs := []; p_handlers := []; p_stmts := prog_arr |} s_init) as [o s1] eqn:E.
+    refine (proj1 (in_place_only_err_run 100 {| p_funcs := []; p_handlers := []; p_stmts := prog_arr |}
+                     s_init o s1 _ (wf_init _ _ _ _) E)).
+    vm_compute. reflexivity.
+  - eexists. split; vm_compute; reflexivity.
+  - eexists. split; vm_compute; reflexivity.
+Qed.
+
+(* the privacy invariant on a concrete reachable state: after `x := err` (copying declaration)
+   x is not an err cell *)
+Example ex_decl_of_err_is_copy :
+  let s1 := after (exec_stmt 10 P0 [] (SDecl nx TBool (EVar n_err TBool))) s_init in
+  frame_get nx (st_globals s1) <> frame_get n_err (st_globals s1) /\
+  read_global nx s1 = Some (HBool false).
+Proof. vm_compute. split; auto; discriminate. Qed.
